@@ -13,36 +13,6 @@ From Coq Require Import Floats.
 From GenqlV Require Import Base.Prelude Base.Fmt Base.Value Model.Funcs.
 Local Open Scope string_scope.
 
-(* ---------- decimal numerals ---------- *)
-
-Definition digit_val (c : ascii) : option N :=
-  let n := N_of_ascii c in
-  (if (48 <=? n) && (n <=? 57) then Some (n - 48) else None)%N.
-
-(* all characters are digits: value and number of digits *)
-Fixpoint digits_val (s : string) (acc : N) (cnt : nat) : option (N * nat) :=
-  match s with
-  | EmptyString => Some (acc, cnt)
-  | String c r => match digit_val c with
-                  | Some d => digits_val r (acc * 10 + d)%N (S cnt)
-                  | None => None
-                  end
-  end.
-
-Definition nat_dec (s : string) : option N :=
-  match s with
-  | EmptyString => None
-  | _ => match digits_val s 0%N 0%nat with Some (n, _) => Some n | None => None end
-  end.
-
-(* optional sign, then at least one digit *)
-Definition signed_dec (s : string) : option Z :=
-  match s with
-  | String "-" r => match nat_dec r with Some n => Some (- Z.of_N n)%Z | None => None end
-  | String "+" r => match nat_dec r with Some n => Some (Z.of_N n) | None => None end
-  | _ => match nat_dec s with Some n => Some (Z.of_N n) | None => None end
-  end.
-
 (* strconv.Atoi (int is 64 bits) *)
 Definition atoi_inst (s : string) : ores Z :=
   match signed_dec s with
